@@ -91,4 +91,79 @@ theorem mkKd_spec (w : List (List UInt8)) (hw : ∀ x ∈ w, x.length = 4) (R : 
   simp [kdWords, List.flatMap_def, List.map_flatten]
   rfl
 
+theorem flatMap_chunk {α : Type} (g : Nat → List α) : ∀ (n r : Nat), (∀ i, i < n → (g i).length = 4) → r < n →
+    ((((List.range n).flatMap g).drop (4 * r)).take 4 = g r ∧ ((List.range n).flatMap g).length = 4 * n) := by
+  intro n
+  induction n with
+  | zero => intro r _ hr; omega
+  | succ n ih =>
+    intro r hg hr
+    have hlen : ((List.range n).flatMap g).length = 4 * n := by
+      cases n with
+      | zero => simp
+      | succ m => exact (ih 0 (fun i hi => hg i (by omega)) (by omega)).2
+    rw [List.range_succ, List.flatMap_append]
+    simp only [List.flatMap_cons, List.flatMap_nil, List.append_nil]
+    refine ⟨?_, by rw [List.length_append, hlen, hg n (by omega)]; omega⟩
+    by_cases hrn : r < n
+    · have := (ih r (fun i hi => hg i (by omega)) hrn).1
+      rw [List.drop_append_of_le_length (by rw [hlen]; omega),
+        List.take_append_of_le_length (by rw [List.length_drop, hlen]; omega), this]
+    · have hr' : r = n := by omega
+      subst hr'
+      rw [List.drop_left' hlen, List.take_of_length_le (Nat.le_of_eq (hg r (by omega)))]
+
+theorem kdRow_length (w : List (List UInt8)) (R r : Nat) (hr : r ≤ R) (hlen : w.length = 4 * (R + 1)) :
+    (kdRow w R r).length = 4 := by
+  unfold kdRow
+  have : ((w.drop (4 * (R - r))).take 4).length = 4 := by
+    rw [List.length_take, List.length_drop, hlen]; omega
+  split
+  · rw [List.length_map]; exact this
+  · exact this
+
+theorem kdWords_words (w : List (List UInt8)) (hw : ∀ x ∈ w, x.length = 4) (R : Nat) :
+    ∀ x ∈ kdWords w R, x.length = 4 := by
+  intro x hx
+  simp only [kdWords, List.mem_flatMap] at hx
+  obtain ⟨r, _, hx⟩ := hx
+  unfold kdRow at hx
+  split at hx
+  · obtain ⟨y, hy, rfl⟩ := List.mem_map.mp hx
+    exact invCol_length y (hw y (List.mem_of_mem_drop (List.mem_of_mem_take hy)))
+  · exact hw x (List.mem_of_mem_drop (List.mem_of_mem_take hx))
+
+theorem invCol_flatten (x0 x1 x2 x3 : List UInt8) (h0 : x0.length = 4) (h1 : x1.length = 4) (h2 : x2.length = 4)
+    (h3 : x3.length = 4) :
+    ([x0, x1, x2, x3].map invCol).flatten = Spec.invMixColumns [x0, x1, x2, x3].flatten := by
+  obtain ⟨a0, a1, a2, a3, rfl⟩ := exists4 x0 h0
+  obtain ⟨b0, b1, b2, b3, rfl⟩ := exists4 x1 h1
+  obtain ⟨c0, c1, c2, c3, rfl⟩ := exists4 x2 h2
+  obtain ⟨d0, d1, d2, d3, rfl⟩ := exists4 x3 h3
+  simp [invCol, Spec.invMixColumns, Spec.at_, List.range_succ]
+
+/-- round key `r` of the model's decryption schedule = the modified schedule of §5.3.5 -/
+theorem kd_roundKey (w : List (List UInt8)) (hw : ∀ x ∈ w, x.length = 4) (R r : Nat) (hr : r ≤ R)
+    (hlen : w.length = 4 * (R + 1)) :
+    Spec.roundKey (kdWords w R) r = Spec.dkOf (Spec.roundKey w) R r := by
+  have hc := (flatMap_chunk (kdRow w R) (R + 1) r (fun i hi => kdRow_length w R i (by omega) hlen) (by omega)).1
+  rw [Spec.roundKey, kdWords, hc, kdRow, Spec.dkOf, Spec.roundKey]
+  have hd := drop4 w (4 * (R - r)) [] (by rw [hlen]; omega)
+  by_cases h : 1 ≤ r ∧ r < R
+  · simp only [h, and_self, if_true, hd]
+    have hm : ∀ k, k < 4 → (w.getD (4 * (R - r) + k) []).length = 4 := by
+      intro k hk
+      have hlt : 4 * (R - r) + k < w.length := by rw [hlen]; omega
+      apply hw
+      rw [List.getD_eq_getElem?_getD, List.getElem?_eq_getElem hlt]
+      exact List.getElem_mem hlt
+    have m0 := hm 0 (by decide)
+    rw [Nat.add_zero] at m0
+    exact invCol_flatten _ _ _ _ m0 (hm 1 (by decide)) (hm 2 (by decide)) (hm 3 (by decide))
+  · simp only [h, if_false]
+
+theorem kdWords_length (w : List (List UInt8)) (R : Nat) (hlen : w.length = 4 * (R + 1)) :
+    (kdWords w R).length = 4 * (R + 1) :=
+  (flatMap_chunk (kdRow w R) (R + 1) 0 (fun i hi => kdRow_length w R i (by omega) hlen) (by omega)).2
+
 end Tls.Crypto.Aes
